@@ -324,7 +324,14 @@ func c20History(t *testing.T, rec *vlib.Rec, idx int) {
 			runtime.Gosched()
 			runtime.Gosched()
 		case 4:
-			time.Sleep(time.Duration(x>>8&1023) * time.Microsecond) // virtual
+			// virtual sleep, only at points where gobgp holds no lock: "bucket" is inside the shared
+			// read lock, and a goroutine blocked on a mutex is not durably blocked, so a sleeper
+			// there would stop virtual time for ever (a harness-made livelock, not gobgp's)
+			if point != "bucket" {
+				time.Sleep(time.Duration(x>>8&1023) * time.Microsecond)
+			} else {
+				runtime.Gosched()
+			}
 		}
 	}})
 	defer verifHookPtr.Store(nil)
